@@ -437,8 +437,8 @@ func runC05Extra(c *Ctx) {
 		}
 	}
 	// (e) the consensus path: commit only on +2/3 precommits — finalize-gate and tally rules of C01/C04
-	{
-		sub := &Ctx{Prop: c.Prop, Tier: c.Tier, L: c.L}
+	if !c.Sub {
+		sub := &Ctx{Prop: c.Prop, Tier: c.Tier, L: c.L, Sub: true}
 		runC01(sub)
 		for _, o := range sub.obs {
 			if !strings.HasPrefix(o.Rule, "C01.finalize-gate") && !strings.HasPrefix(o.Rule, "C01.tally/") {
